@@ -16,6 +16,7 @@ Assumptions of the unbounded theorems (spelled out as hypotheses):
 node, in a verification message or in a header sup link of a delivered block copy.
 -/
 import BytomModel.Lemmas.CasperC17
+import BytomModel.Lemmas.CasperRun
 
 namespace BytomModel.Props.C17
 open BytomModel.Node
@@ -26,37 +27,6 @@ theorem isMajority_iff (l : SupLink) (n : Nat) : isMajority l n = true ↔ 3 * l
   unfold isMajority
   simp only [gt_iff_lt, decide_eq_true_eq]
   omega
-
-/-- a valid signature of validator `o` for src → tgt was presented to the node during `evs` -/
-def presented (evs : List Event) (o src tgt : Nat) : Prop :=
-  Event.vote o src tgt true ∈ evs ∨
-  ∃ b l sg, Event.deliver b ∈ evs ∧ l ∈ b.sup ∧ sg ∈ l.sigs ∧ b.id = tgt ∧ l.src = src ∧ sg.slot = o ∧ sg.valid = true
-
-/-- no restart; delivered blocks are blocks of the universe `U` -/
-def RunOK (U : Universe) (evs : List Event) : Prop :=
-  ∀ e ∈ evs, match e with
-    | .deliver b => HdrU U b
-    | .restart => False
-    | _ => True
-
-theorem RunOK.events_ok {U : Universe} {evs : List Event} (h : RunOK U evs) :
-    ∀ e ∈ evs, e.ok U (presented evs) := by
-  intro e he
-  have := h e he
-  cases e with
-  | define _ => trivial
-  | deliver b =>
-    exact ⟨this, fun l hl sg hsg hv => Or.inr ⟨b, l, sg, he, hl, hsg, rfl, rfl, rfl, hv⟩⟩
-  | vote o src tgt ok =>
-    intro hok; subst hok; exact Or.inl he
-  | restart => exact absurd this id
-
-/-- The refinement the step theorems below rest on: every run without restart is a finite sequence of
-    `Micro` steps (Lemmas/CasperSteps), each carrying as guards what the code checked before mutating. -/
-theorem run_refines_micro (U : Universe) (cfg : Config) (genesis : Header) (evs : List Event)
-    (hg : genesis.id = U.g) (h0 : genesis.height = 0) (hr : RunOK U evs) :
-    MicroStar U (presented evs) (State.init cfg genesis) (run (State.init cfg genesis) evs) :=
-  (run_refines U (presented evs) evs _ (Pre_init U _ cfg genesis hg h0) hr.events_ok).1
 
 /-- the C17 invariant holds after every run without restart -/
 theorem inv17_run (U : Universe) (cfg : Config) (genesis : Header) (evs : List Event)
@@ -182,12 +152,6 @@ theorem invalid_never_counts (U : Universe) (cfg : Config) (genesis : Header) (e
 
 /-! ### across restarts: refuted (finding F10a), and the partial statement -/
 
-/-- delivered blocks are blocks of the universe `U`; restarts are allowed -/
-def BlocksOK (U : Universe) (evs : List Event) : Prop :=
-  ∀ e ∈ evs, match e with
-    | .deliver b => HdrU U b
-    | _ => True
-
 /-- the full property: `justified_has_supermajority` for runs that may contain `restart` events -/
 def c17_across_restart : Prop :=
   ∀ (U : Universe) (cfg : Config) (genesis : Header) (evs : List Event),
@@ -289,14 +253,7 @@ theorem c17_partial (U : Universe) (cfg : Config) (genesis : Header) (evs : List
       ∃ l ∈ c.sup, 3 * l.sigs.length > 2 * cfg.nVal ∧ (l.sigs.map (·.slot)).Nodup ∧
         ∀ sg ∈ l.sigs, sg.slot < cfg.nVal ∧ sg.valid = true ∧
           (presented evs sg.slot l.src c.hash ∨ some sg.slot = cfg.me) := by
-  apply justified_has_supermajority U cfg genesis evs he hg h0
-  intro e hem
-  have := hb e hem
-  cases e with
-  | define _ => trivial
-  | deliver b => exact this
-  | vote _ _ _ _ => trivial
-  | restart => exact hnr hem
+  exact justified_has_supermajority U cfg genesis evs he hg h0 (RunOK.of_blocksOK hb hnr)
 
 /-! ### the hypotheses are satisfiable (non-vacuity) -/
 
